@@ -57,3 +57,17 @@ Definition ex_parse (b : list Z) : option elf :=
 Definition ex_crc : Z := crc32_poly ex_dbg_bytes.
 Definition ex_pad : list Z := [0; 0].          (* 3 - 9 mod 4 *)
 Definition ex_id : list Z := [1;2;3;4;5;6;7;8;9;10;11;12;13;14;15;16;17;18;19;20].
+
+(* two hops: ex_stripped --.gnu_debuglink--> a debug file (ex_elf + .gnu_debugaltlink) --> a supplementary file *)
+Definition ex2_sup_name : list Z := ascii_bytes "s.sup".
+Definition ex2_sup_bytes : list Z := [127; 69; 76; 70; 9].
+Definition ex2_dbg_bytes : list Z := [127; 69; 76; 70; 2].
+Definition ex2_dbg_elf : elf :=
+  add_section (link_section n_debugaltlink (altlink_body ex2_sup_name (ex_id ++ [])) 300 []) ex_elf.
+Definition ex2_load (n : list Z) : option (list Z) :=
+  if bytes_eqb n ex_dbg_name then Some ex2_dbg_bytes
+  else if bytes_eqb n ex2_sup_name then Some ex2_sup_bytes else None.
+Definition ex2_parse (b : list Z) : option elf :=
+  if bytes_eqb b ex2_dbg_bytes then Some ex2_dbg_elf
+  else if bytes_eqb b ex2_sup_bytes then Some ex_elf else None.
+Definition ex2_crc : Z := crc32_poly ex2_dbg_bytes.
